@@ -298,6 +298,9 @@ let c19_oracle (ops : op list) (obs : string list) : string =
     if !bad <> "" then "fail " ^ !bad
     else if !stream <> [] && !never then "fail stream-holds-bytes-that-are-no-record-or-out-of-order"
     else if !missing > 0 && errs_of_snapshot ob = "" then "fail records-lost-without-any-report-on-the-error-channel"
+    (* logging goes on as configured: whatever file exists in the end is a file of the configured family *)
+    else if (not c.c_spec.fts) && List.exists (fun ((nm, k), _) -> int_of_n k <= 2 && not (name_documented c [] nm)) snap then
+      "fail a-file-is-not-named-as-configured-after-the-failures"
     else "pass"
   | _ -> "skip shape"
 
@@ -306,7 +309,7 @@ let c11_oracle (ops : op list) (obs : string list) : string =
   if List.length ops <> List.length obs then "fail observation-shape" else
   (* records: (payload, mandatory) - acknowledged before the kill in direct mode, or logged after the restart *)
   let recs = ref [] and cfg = ref None and live = ref false and dead = ref false and after = ref false in
-  let last = ref None and never = ref true and bad = ref "" in
+  let last = ref None and never = ref true and bad = ref "" and post_ack = ref false in
   List.iter2 (fun op ob ->
       (match op with
        | OStart c -> cfg := Some c; live := true;
@@ -319,6 +322,7 @@ let c11_oracle (ops : op list) (obs : string list) : string =
            let direct = (match !cfg with Some c -> c.c_cap = None && not c.c_async | None -> false) in
            if ob = "x" then dead := true;
            if !after && ob <> "r0" && !bad = "" then bad := "logging-fails-after-the-restart " ^ ob;
+           if !after && ob = "r0" then post_ack := true;
            recs := (b, (acked && direct && not !dead) || !after) :: !recs
          end
        | OStop -> live := false
@@ -347,6 +351,10 @@ let c11_oracle (ops : op list) (obs : string list) : string =
           verdict := "acknowledged-or-later-record-missing " ^ hex_of_bytes b) rs;
     if !verdict <> "" then "fail " ^ !verdict
     else if !stream <> [] then "fail stream-holds-bytes-that-are-no-record-or-out-of-order"
+    (* the other guarantees hold again: a configured symlink leads to the file being written *)
+    else if c.c_symlink && !post_ack && (not c.c_spec.fts)
+            && (match current_name c snap with Some cur -> link_of_snapshot ob <> hex_of_bytes cur | None -> false) then
+      "fail symlink-does-not-lead-to-the-current-file-after-the-restart"
     else "pass"
   | _ -> "skip shape"
 
